@@ -176,6 +176,7 @@ theorem loop_step (f : Nat) (x : UInt8) (t : Bytes) (esc : Bool) (acc : Bytes) :
               if ((x :: t).drop (Utf8.decodeRune (x :: t)).2).length < 4 then none
               else (Quote.parseHex4 (((x :: t).drop (Utf8.decodeRune (x :: t)).2).take 4)).map
                 (fun n => (n, ((x :: t).drop (Utf8.decodeRune (x :: t)).2).drop 4))
+            else if (Utf8.decodeRune (x :: t)).1 == 34 then some (34, (x :: t).drop (Utf8.decodeRune (x :: t)).2)
             else (Quote.unescape (Utf8.decodeRune (x :: t)).1).map
               (fun r => (Int.ofNat r, (x :: t).drop (Utf8.decodeRune (x :: t)).2))
           else some (Int.ofNat (Utf8.decodeRune (x :: t)).1, (x :: t).drop (Utf8.decodeRune (x :: t)).2) : Option (Int × Bytes)) with
@@ -214,7 +215,15 @@ theorem loop_quote : ∀ (n : Nat) (k acc : Bytes) (fuel : Nat), k.length ≤ n 
         rw [loop_step, decode_ascii (escLetter b) _ he1]
         have c1 : ((escLetter b).toNat == Utf8.runeError && (1 == 1) && !true) = false := by simp
         have c2 : ((escLetter b).toNat == 117) = false := by simpa using he2
-        simp only [c1, c2, Bool.false_eq_true, if_false, if_true, he3, Option.map_some, List.drop_succ_cons, List.drop_zero,
+        have c3 : ((escLetter b).toNat == 34) = false := by
+          have := he3
+          cases h34 : ((escLetter b).toNat == 34) with
+          | false => rfl
+          | true =>
+            have e : (escLetter b).toNat = 34 := by simpa using h34
+            rw [e] at this
+            simp [Quote.unescape] at this
+        simp only [c1, c2, c3, Bool.false_eq_true, if_false, if_true, he3, Option.map_some, List.drop_succ_cons, List.drop_zero,
           Bool.not_true, Bool.and_false]
         rw [encodeRune_ascii b hb, ih r (acc ++ [b]) f' (by omega) (by omega)]
         simp
